@@ -41,6 +41,7 @@ type vReplayer struct {
 	lockHolder int          // stream whose subscribe holds remoteMu in the spec (between Sub1 and Sub2)
 	evicted    map[string]int // "account|space" -> step at which the account was evicted as a non-member
 	checkedAt  map[int]int    // model stream -> step of its parked subscribe's membership check
+	raceHeld   map[string]bool // "stream|space" whose interest was explained by the subscribe/eviction race
 	hookPending map[int]bool
 	laterFrames map[int]int // model stream -> number of frame steps still to come
 	step      int
@@ -99,7 +100,7 @@ func vUniverse(b vBehaviour) []vTag {
 
 func vReplayBehaviour(t *testing.T, rep *vfReport, b vBehaviour, seed int64) {
 	r := &vReplayer{rep: rep, b: b, subWait: map[int]int{}, hookPending: map[int]bool{}, laterFrames: map[int]int{},
-		parked: map[int]bool{}, evicted: map[string]int{}, checkedAt: map[int]int{},
+		parked: map[int]bool{}, evicted: map[string]int{}, checkedAt: map[int]int{}, raceHeld: map[string]bool{},
 		frames: map[int]*pubsubproto.Publish{}, handledId: map[int]int{}, genuine: map[string]*pubsubproto.Publish{}, own: map[int]bool{}, idOf: map[string]int{}}
 	x := uint64(seed)*2654435761 + 12345
 	r.rnd = func(n int) int { x = x*6364136223846793005 + 1442695040888963407; return int((x >> 33) % uint64(n)) }
@@ -443,10 +444,16 @@ func (r *vReplayer) checkEvicted(a vAct, released int, v vViews) {
 					held = append(held, x)
 				}
 			}
+			ek := fmt.Sprintf("%d|%s", i+1, sp)
 			if len(held) == 0 {
+				delete(r.raceHeld, ek)
 				continue
 			}
+			if r.raceHeld[ek] {
+				continue // still the interest registered through the race reported before
+			}
 			if released == i+1 && r.checkedAt[i+1] < at {
+				r.raceHeld[ek] = true
 				r.violate("subscribe-racing-eviction-reregisters-evicted-member", fmt.Sprintf(
 					"stream %d (account %s) passed the membership check of its subscribe to space %s at step %d, the account was removed and evicted at step %d, then the subscribe recorded its interest: the evicted non-member holds %v",
 					i+1, acct, sp, r.checkedAt[i+1], at, held))
